@@ -238,6 +238,54 @@ c14_varint!(c14_varint_i32_ref_unsync, unsync::Arena, i32, put_i32_varint, get_i
 // @h props=C14 tier=thorough timeout=1200 bounds=buffer:1..=16-of-48,value:any
 c14_varint!(c14_varint_u64_ref_unsync, unsync::Arena, u64, put_u64_varint, get_u64_varint, 13);
 
+// varint put at an arbitrary fill level (the general put contract; the round trip above is stated for an empty buffer)
+macro_rules! c14_varint_filled {
+  ($name:ident, $arena:ty, $ty:ident, $put:ident, $unwind:expr) => {
+    #[kani::proof]
+    #[kani::unwind($unwind)]
+    fn $name() {
+      let arena: $arena = mk_arena::<$arena>();
+      let mut b = setup_ref(&arena);
+      let cap: u32 = kani::any();
+      kani::assume(cap >= 1 && cap <= BCAP as u32);
+      b.allocated.ptr_size = cap;
+      let len0: usize = kani::any();
+      kani::assume(len0 <= cap as usize);
+      b.len = len0;
+      let p = arena.raw_ptr();
+      let v: $ty = kani::any();
+      let x: usize = kani::any();
+      kani::assume(x < ACAP);
+      let before = unsafe { p.add(x).read() };
+      match b.$put(v) {
+        Ok(n) => {
+          assert!(n >= 1 && len0 + n <= cap as usize && b.len == len0 + n, "C14: varint put stores the value inside the buffer and advances len past it");
+          if x < 8 + len0 || x >= 8 + len0 + n {
+            assert!(unsafe { p.add(x).read() } == before, "C14: varint put touches nothing outside the encoded bytes");
+          }
+          kani::cover!(len0 > 0 && len0 + n == cap as usize, "varint fills a partly filled buffer exactly");
+        }
+        Err(e) => {
+          assert!(b.len == len0, "C14: failed varint put leaves len unchanged");
+          if x < 8 + len0 || x >= 8 + cap as usize {
+            assert!(unsafe { p.add(x).read() } == before, "C14: failed varint put touches nothing outside the buffer");
+          }
+          core::mem::forget(e);
+          kani::cover!(len0 > 0 && len0 < cap as usize, "varint does not fit the remaining space");
+        }
+      }
+      core::mem::forget(b);
+      core::mem::forget(arena);
+    }
+  };
+}
+// @h props=C14 tier=quick timeout=1200 bounds=buffer:1..=16-of-48,len:0..=cap,value:any
+c14_varint_filled!(c14_varint_filled_u32_ref_unsync, unsync::Arena, u32, put_u32_varint, 8);
+// @h props=C14 tier=thorough timeout=1500 bounds=buffer:1..=16-of-48,len:0..=cap,value:any
+c14_varint_filled!(c14_varint_filled_i64_ref_sync, sync::Arena, i64, put_i64_varint, 13);
+// @h props=C14 tier=thorough timeout=1500 bounds=buffer:1..=16-of-48,len:0..=cap,value:any
+c14_varint_filled!(c14_varint_filled_u16_ref_unsync, unsync::Arena, u16, put_u16_varint, 6);
+
 // ---- put_slice ---------------------------------------------------------------------------------
 // @h props=C14 tier=quick timeout=900 bounds=buffer=16-of-48,len:0..=16,slice:0..=24
 #[kani::proof]
